@@ -2,6 +2,8 @@ mod client_core;
 mod client_props;
 mod codec;
 mod c16;
+mod chain;
+mod chain_props;
 mod driver;
 mod explore;
 mod fault;
@@ -31,11 +33,17 @@ fn parts_for(prop: &str, tier: Tier) -> Vec<Box<dyn explore::Harness>> {
             cfgs: server_props::configs(p, tier),
         })
     };
+    let hc = |p: chain_props::HProp| -> Box<dyn explore::Harness> {
+        Box::new(chain_props::ChainHarness {
+            prop: p,
+            cfgs: chain_props::configs(p, tier),
+        })
+    };
     match prop {
         "C01" => vec![c(CProp::C01)],
         "C02" => vec![c(CProp::C02)],
         "C03" => vec![c(CProp::C03)],
-        "C04" => vec![s(SProp::C04)],
+        "C04" => vec![s(SProp::C04), hc(chain_props::HProp::C04)],
         "C05" => vec![c(CProp::C05)],
         "C06" => vec![s(SProp::C06)],
         "C08" => vec![s(SProp::C08)],
@@ -43,7 +51,7 @@ fn parts_for(prop: &str, tier: Tier) -> Vec<Box<dyn explore::Harness>> {
         "C11" => vec![c(CProp::C11), s(SProp::C11)],
         "C12" => vec![s(SProp::C12)],
         "C14" => vec![c(CProp::C14), s(SProp::C14)],
-        "C18" => vec![c(CProp::C18)],
+        "C18" => vec![c(CProp::C18), hc(chain_props::HProp::C18)],
         _ => vec![],
     }
 }
@@ -141,6 +149,9 @@ fn run(prop: &str, tier: Tier, replay: Option<String>) -> i32 {
     if prop == "C20" {
         return stubs::run_c20(tier);
     }
+    if prop == "C07" {
+        return chain_props::run_c07(tier);
+    }
     if prop == "C19" {
         return hooks::run_c19(tier);
     }
@@ -191,6 +202,24 @@ fn do_replay(prop: &str, path: &str) -> i32 {
         .collect();
     let sig = doc["signature"].as_str().unwrap_or("");
     let harness = doc["harness"].as_str().unwrap_or("");
+    if harness.starts_with("chain") {
+        let hp = if prop == "C04" { chain_props::HProp::C04 } else { chain_props::HProp::C18 };
+        let cfg: chain::ChainCfg = serde_json::from_value(doc["config"].clone()).expect("config");
+        let (out, _) = chain_props::run_cfg(hp, &cfg, &choices, true);
+        if let Some(e) = out.machinery_error {
+            eprintln!("machinery: {e}");
+            return 2;
+        }
+        println!("{}", out.render.unwrap_or_default());
+        for v in &out.violations {
+            println!("violated: {} — {}", v.signature, v.message);
+        }
+        if out.violations.iter().any(|v| v.signature == sig) {
+            println!("VIOLATION property={prop} replay={path}");
+            return 1;
+        }
+        return 0;
+    }
     if harness.starts_with("server_core") {
         let Some(sp) = server_prop(prop) else { return 2 };
         let cfg: server_core::SCfg = serde_json::from_value(doc["config"].clone()).expect("config");
